@@ -99,10 +99,10 @@ def _parse_xml_string(xml_string, parser, charset=None):
     else:
         string = ''.join(chain( (chunk,), xml_string ))
 
-    if charset:
-        string = string.decode(charset)
-
     try:
+        if charset:
+            string = string.decode(charset)
+
         try:
             root, xmlids = etree.XMLID(string, parser)
 
@@ -111,7 +111,7 @@ def _parse_xml_string(xml_string, parser, charset=None):
                          'encoding declaration is not supported by lxml.')
             root, xmlids = etree.XMLID(string.encode(charset), parser)
 
-    except XMLSyntaxError as e:
+    except (XMLSyntaxError, UnicodeDecodeError, LookupError) as e:
         logger_invalid.error("%r in string %r", e, string)
         raise Fault('Client.XMLSyntaxError', str(e))
 
